@@ -958,6 +958,85 @@ def directed_both():
     return out
 
 
+def directed_enums():
+    """C17: enum inclusion chains of depth >= 2 (and a diamond of inclusions): variables, unassigned parameters and default fields of
+    the OUTERMOST enum range over the declared values and the values of every transitively included enum; solvable problems that need
+    the innermost values and pigeonhole problems that must stay unsolvable."""
+    out = []
+
+    def en(name, vals, incl):
+        return {'name': name, 'kind': 'enum', 'vals': vals, 'incl': incl, 'supers': [], 'fields': [], 'ctors': []}
+    metal, solid, material = en('Metal', ['iron', 'copper'], []), en('Solid', ['wood'], ['Metal']), en('Material', ['water'], ['Solid'])
+    stuff = en('Stuff', ['plasma'], ['Material'])                       # depth 3: 5 values
+    da, db, dc, dd = en('DA', ['a1', 'a2'], []), en('DB', ['b1'], ['DA']), en('DC', ['c1'], ['DA']), en('DD', ['d1'], ['DB', 'DC'])   # diamond: 5 distinct
+    chain = [metal, solid, material, stuff]
+    made = {'name': 'Made', 'owner': None, 'params': [('of', ('ref', 'Material'))], 'supers': [], 'body': []}
+    made2 = {'name': 'Made2', 'owner': None, 'params': [('of', ('ref', 'Stuff'))], 'supers': [], 'body': [('formula', False, 'sub', [], 'Made', [])]}
+    box = {'name': 'Box', 'kind': 'class', 'supers': [], 'fields': [('mat', ('ref', 'Material'), None), ('st', ('ref', 'Stuff'), None)], 'ctors': []}
+
+    def decl(t, names):
+        return [('local', ('ref', t), n, None) for n in names]
+
+    def alldiff(names):
+        return [('expr', ('ne', var(a), var(b))) for i, a in enumerate(names) for b in names[i + 1:]]
+    E = lambda a, b: ('expr', ('eq', a, b))
+    N = lambda a, b: ('expr', ('ne', a, b))
+    mains = [
+        # a variable of the outermost enum must take a value of the innermost one
+        (chain, [], decl('Material', ['m']) + decl('Metal', ['k']) + [E(var('m'), var('k'))]),
+        (chain, [], decl('Metal', ['k']) + decl('Material', ['m']) + [E(var('k'), var('m'))]),
+        (chain, [], decl('Stuff', ['s']) + decl('Metal', ['k']) + [E(var('s'), var('k'))]),
+        (chain, [], decl('Stuff', ['s']) + decl('Solid', ['o']) + decl('Metal', ['k']) + [E(var('s'), var('o')), E(var('o'), var('k'))]),
+        # as many pairwise different variables as the enum has values in total: solvable only with the deep values
+        (chain, [], decl('Material', ['m0', 'm1', 'm2', 'm3']) + alldiff(['m0', 'm1', 'm2', 'm3'])),
+        (chain, [], decl('Stuff', ['s0', 's1', 's2', 's3', 's4']) + alldiff(['s0', 's1', 's2', 's3', 's4'])),
+        (chain, [], decl('Solid', ['o0', 'o1', 'o2']) + alldiff(['o0', 'o1', 'o2'])),
+        # one more: pigeonhole, must stay unsolvable
+        (chain, [], decl('Material', ['m0', 'm1', 'm2', 'm3', 'm4']) + alldiff(['m0', 'm1', 'm2', 'm3', 'm4'])),
+        (chain, [], decl('Solid', ['o0', 'o1', 'o2', 'o3']) + alldiff(['o0', 'o1', 'o2', 'o3'])),
+        (chain, [], decl('Stuff', ['s0', 's1', 's2', 's3', 's4', 's5']) + alldiff(['s0', 's1', 's2', 's3', 's4', 's5'])),
+        # three Material variables different from both Metal values and from each other: only water and wood are left -> unsolvable
+        (chain, [], decl('Metal', ['k0', 'k1']) + [N(var('k0'), var('k1'))] + decl('Material', ['m0', 'm1', 'm2']) + alldiff(['m0', 'm1', 'm2'])
+         + [N(var(m), var(k)) for m in ('m0', 'm1', 'm2') for k in ('k0', 'k1')]),
+        # ... two are fine
+        (chain, [], decl('Metal', ['k0', 'k1']) + [N(var('k0'), var('k1'))] + decl('Material', ['m0', 'm1']) + alldiff(['m0', 'm1'])
+         + [N(var(m), var(k)) for m in ('m0', 'm1') for k in ('k0', 'k1')]),
+        # unassigned parameters of the outermost type
+        (chain, [made, made2], [('formula', False, 'g', [], 'Made', [])] + decl('Metal', ['k']) + [E(var('g', 'of'), var('k'))]),
+        (chain, [made, made2], [('formula', True, 'g', [], 'Made', [])] + decl('Metal', ['k']) + [E(var('g', 'of'), var('k'))]),
+        (chain, [made, made2], [('formula', False, 'g', [], 'Made2', [])] + decl('Metal', ['k']) + [E(var('g', 'of'), var('k'))]),
+        (chain, [made, made2], [('formula', False, 'g%d' % i, [], 'Made', []) for i in range(4)] + alldiff(['g%d.of' % i for i in range(0)])
+         + [('expr', ('ne', var('g%d' % i, 'of'), var('g%d' % j, 'of'))) for i in range(4) for j in range(i + 1, 4)]),
+        # default fields of the outermost type
+        (chain + [box], [], [('new', 'Box', 'bx', [])] + decl('Metal', ['k']) + [E(var('bx', 'mat'), var('k'))]),
+        (chain + [box], [], [('new', 'Box', 'bx', [])] + decl('Metal', ['k']) + [E(var('bx', 'st'), var('k')), N(var('bx', 'mat'), var('bx', 'st'))]),
+        (chain + [box], [], [('new', 'Box', 'b%d' % i, []) for i in range(4)]
+         + [('expr', ('ne', var('b%d' % i, 'mat'), var('b%d' % j, 'mat'))) for i in range(4) for j in range(i + 1, 4)]),
+        # a diamond of inclusions: DD = {d1} + DB{b1} + DC{c1} + DA{a1, a2} (DA reached twice)
+        ([da, db, dc, dd], [], decl('DD', ['x']) + decl('DA', ['y']) + [E(var('x'), var('y'))]),
+        ([da, db, dc, dd], [], decl('DD', ['x0', 'x1', 'x2', 'x3', 'x4']) + alldiff(['x0', 'x1', 'x2', 'x3', 'x4'])),
+        ([da, db, dc, dd], [], decl('DD', ['x0', 'x1', 'x2', 'x3', 'x4', 'x5']) + alldiff(['x0', 'x1', 'x2', 'x3', 'x4', 'x5'])),
+        ([da, db, dc, dd], [], decl('DB', ['u']) + decl('DC', ['v']) + [E(var('u'), var('v'))]),
+    ]
+    # problems that do NOT need the deep values (they stay solvable whatever the domain is): here only the check of the initial
+    # domain (declared + transitively included values) can notice a missing value
+    mains += [
+        (chain, [], decl('Material', ['m'])),
+        (chain, [], decl('Stuff', ['s']) + decl('Material', ['m']) + [N(var('s'), var('m'))]),
+        (chain, [], decl('Stuff', ['s0', 's1']) + alldiff(['s0', 's1'])),
+        (chain, [made, made2], [('formula', False, 'g', [], 'Made', [])]),
+        (chain, [made, made2], [('formula', True, 'g', [], 'Made2', [])]),
+        (chain + [box], [], [('new', 'Box', 'bx', [])]),
+        (chain + [box], [], [('new', 'Box', 'bx', []), ('new', 'Box', 'by', []), N(var('bx', 'st'), var('by', 'st'))]),
+        ([da, db, dc, dd], [], decl('DD', ['x'])),
+        ([da, db, dc, dd], [], decl('DD', ['x']) + decl('DB', ['u']) + [N(var('x'), var('u'))]),
+    ]
+    for classes, preds, main in mains:
+        prog = {'classes': classes, 'preds': preds, 'main': main}
+        out.append((prog, A.pp_program(prog)))
+    return out
+
+
 def directed_temporal():
     """Problems aimed at each conjunct of the temporal rules: on a correct planner they are unsolvable; if one of the
     constraints of Interval / Impulse is lost they become solvable with an ill-formed active atom (which the checker rejects)."""
